@@ -2,10 +2,13 @@
 package hx
 
 import (
+	stdcsv "encoding/csv"
 	"encoding/json"
+	"encoding/xml"
 	"errors"
 	"fmt"
 	"io"
+	"os"
 	"strings"
 	"unicode/utf8"
 
@@ -194,6 +197,26 @@ var (
 	ErrFault2 = errors.New("injected I/O fault two")
 )
 
+// FaultIdentities are error values an input reader may well return and that a format reader could take
+// for something of its own: the standard 'input ended inside a token' error, a deadline error
+// (Timeout() == true), syntax errors of the standard decoders (a stage upstream handing them on, e.g.
+// through io.Pipe.CloseWithError), and a message with a formatting verb in it. FaultReader kind
+// 4+i returns FaultIdentities[i] persistently.
+var FaultIdentities = []error{
+	io.ErrUnexpectedEOF,
+	os.ErrDeadlineExceeded,
+	&stdcsv.ParseError{StartLine: 1, Line: 1, Column: 1, Err: stdcsv.ErrBareQuote},
+	jsonSyntaxError(),
+	&xml.SyntaxError{Msg: "injected", Line: 1},
+	io.ErrNoProgress,
+	errors.New("disk 100% full %s %d"),
+}
+
+func jsonSyntaxError() error {
+	var v interface{}
+	return json.Unmarshal([]byte("{"), &v) // a *json.SyntaxError with a message
+}
+
 // FaultReader delivers Data[:At] and then fails.
 // Kind 0: ErrFault1 on every call from At on.
 // Kind 1: ErrFault1 once, then ErrFault2 forever.
@@ -228,6 +251,9 @@ func (f *FaultReader) Read(p []byte) (int, error) {
 			return 0, ErrFault2
 		case f.Kind == 3 && f.failed > 1:
 			return 0, ErrFault2
+		}
+		if f.Kind >= 4 {
+			return 0, FaultIdentities[f.Kind-4]
 		}
 		return 0, ErrFault1
 	}
